@@ -52,6 +52,12 @@ pub fn err_code(e: &io::Error) -> String {
     let msg = e.to_string();
     if e.kind() == io::ErrorKind::UnexpectedEof {
         "eof".into()
+    } else if msg.contains("ZKStd version") {
+        "version".into()
+    } else if msg.contains("pow2range columns") {
+        "pow2".into()
+    } else if msg.contains("Decode") || msg.contains("UnexpectedEnd") || msg.contains("invalid") && msg.contains("bool") {
+        "invalid".into()
     } else if msg.contains("version byte") {
         "version".into()
     } else if msg.contains("exceeds maxium") {
